@@ -157,6 +157,35 @@ LsLemma ==
             LET r == SumR(LAMBDA i : Q[i][t] * A[i][c], 0, m - 1)
             IN (c < t => r = 0) /\ (c = t => ((r # 0) = (t # I.kz)))
 
+\* tridiagonal: the exact L*D*L^T recurrence on the planted (pd, pe) returns (D, l) or breaks
+\* down exactly at the planted index; the general system is non-singular (all u_i # 0 are
+\* implied by gd/gdl/gdu being S*L*U) and B = A*X0 by the defining tridiagonal product
+RECURSIVE PtFrom(_, _, _, _, _)
+PtFrom(d, e, Dv, lv, i) ==       \* sequences (1-based); returns <<D, l, fail>>
+  IF i > Len(d) THEN <<Dv, lv, -1>>
+  ELSE LET Di == IF i = 1 THEN d[1] ELSE d[i] - lv[i - 1] * e[i - 1]
+       IN IF Di <= 0 THEN <<Dv, lv, i - 1>>
+          ELSE IF i = Len(d) THEN <<Append(Dv, Di), lv, -1>>
+          ELSE IF e[i] % Di # 0 THEN <<Dv, lv, -2>>
+          ELSE PtFrom(d, e, Append(Dv, Di), Append(lv, e[i] \div Di), i + 1)
+TdLemma ==
+  Fam = "td" =>
+    LET S == PtFrom(I.pd, I.pe, <<>>, <<>>, 1)
+    IN IF I.ok THEN S[3] = -1 /\ S[1] = I.D /\ S[2] = I.l ELSE S[3] = I.kbad
+
+AuxLemma ==
+  Fam = "aux" =>
+    LET m == I.m
+        n == I.n
+    IN /\ {I.kc[j] : j \in 1 .. n} = 0 .. n - 1
+       /\ {I.kr[i] : i \in 1 .. m} = 0 .. m - 1
+       \* backward undoes forward
+       /\ \A i \in 1 .. m, j \in 1 .. n : I.pcF[i][j] = I.A[i][I.kc[j] + 1] /\ I.pcB[i][I.kc[j] + 1] = I.A[i][j]
+       /\ \A i \in 1 .. m, j \in 1 .. n : I.prF[i][j] = I.A[I.kr[i] + 1][j] /\ I.prB[I.kr[i] + 1][j] = I.A[i][j]
+       /\ I.k2 >= I.k1 - 1 /\ \A k \in 1 .. I.k2 + 1 : I.ipiv[k] >= 0 /\ I.ipiv[k] < Max(m, 1)
+       \* norms: max <= one-norm, max <= inf-norm
+       /\ I.nge[1] <= I.nge[2] /\ I.nge[1] <= I.nge[3]
+
 \* n x n integer matrices
 MMul(X, Y, n) == Mat(n, n, LAMBDA i, j : SumR(LAMBDA t : X[i][t] * Y[t][j], 0, n - 1))
 Ident(n) == Mat(n, n, LAMBDA i, j : IF i = j THEN 1 ELSE 0)
